@@ -15,7 +15,7 @@ add("C02",
     "Trusted: CrossHair/z3; xmlsec1 replaced by a stub backend answering per node id (contract: True or SignatureError; decrypt returns prepared plaintext); fixed clock; AST cuts.",
     "DESIGN.md 3/C02")
 add("C03",
-    _CH + " of SecurityContext._check_signature with a real MetadataStore (certs / extract_certs) over symbolic key-descriptor uses, claimed issuer, caller-supplied outer issuer, actual signing certificate, embedded certificate and only_use_keys_in_metadata",
+    _CH + " of SecurityContext._check_signature with a real MetadataStore (certs / extract_certs) over symbolic key-descriptor uses, claimed issuer, caller-supplied outer issuer, actual signing certificate, embedded certificate and only_use_keys_in_metadata, also after earlier certificate look-ups (entity x use) on the same store",
     "For every assignment of key uses in a two-entity federation, claimed Issuer (own, other entity, unknown, absent, padded), outer issuer, actual signing key (any metadata certificate or an embedded-only one), embedded KeyInfo certificate and flag value: "
     "accepted iff the signing certificate is a signing/unspecified-use certificate of the effective issuer, or (flag off and the issuer has none) equals the embedded one; no other certificate is even tried; MissingKey when the flag is on and metadata has no key.",
     "Trusted: CrossHair/z3 (index enumeration); xmlsec1 by contract (verifies iff handed the signer's certificate); object-level metadata; fake temp files.",
@@ -33,7 +33,7 @@ add("C05",
     "DESIGN.md 3/C05")
 add("C06",
     _CH + " of status_ok/_verify/verify over the finite status x second-level x version table (exception class compared with an independently written table) and with Version as an arbitrary symbolic string",
-    "Every non-Success status and every Version other than exactly '2.0' (16-entry catalogue incl. strings float() equates with 2.0; any string <= 4 chars) is rejected without identity, with the documented exception class per standard second-level code; Success+2.0 is accepted. Responses and three request classes.",
+    "Every non-Success status and every Version other than exactly '2.0' (16-entry catalogue incl. strings float() equates with 2.0; any string <= 4 chars) is rejected without identity, with the documented exception class per standard second-level code; Success+2.0 is accepted. Responses and three request classes; also for two messages handled in a row by one response object (the second verdict is its own).",
     "Trusted: CrossHair/z3; parsed-object hand-over; expected classes transcribed by hand from the documented names.",
     "DESIGN.md 3/C06")
 add("C07",
@@ -43,7 +43,7 @@ add("C07",
     "DESIGN.md 3/C07")
 add("C08",
     _CH + " driving the full IdP->SP flow (Server.create_authn_response -> real serialisation -> base64 or SOAP envelope -> Saml2Client.parse_authn_request_response) over symbolic indices into an alphabet of hostile values, with model signing/encryption",
-    "IdP and SP built from each other's generated metadata: for attribute values and NameID text from a 21-entry alphabet (XML-special, quotes, non-ASCII, astral, padded, empty, line breaks, backslashes, comment/element/declaration look-alikes, ']]>', long), 4 NameID formats, 3 authn classes, POST and SOAP, sign x sign x encrypt and 4 satisfied SP requirement settings, "
+    "IdP and SP built from each other's generated metadata: for attribute values and NameID text from a 21-entry alphabet (XML-special, quotes, non-ASCII, astral, padded, empty, line breaks, backslashes, comment/element/declaration look-alikes, ']]>', long), 4 NameID formats, 3 authn classes, POST and SOAP, sign x sign x encrypt, 4 satisfied SP requirement settings and 4 SP clock-skew allowances, "
     "the response is accepted and ava, name_id, in_response_to, issuer, came_from, authn class and session expiry equal what was asserted; the SP finds exactly one assertion with exactly the asserted attributes.",
     "Weaker than the purely symbolic checks: content is concrete per path (z3 enumerates the index space); quick samples one diagonal per alphabet entry, thorough the pair grid. Trusted: model backend for sign/verify/encrypt/decrypt; clock model.",
     "DESIGN.md 3/C08")
@@ -69,12 +69,12 @@ add("C13",
     "DESIGN.md 3/C13")
 add("C14",
     _CH + " driving pack.http_form_post_message / http_redirect_message / make_soap_enveloped_saml_thingy, Entity.apply_binding and Entity.unravel over symbolic indices into alphabets of hostile characters, checked by independent standard readers",
-    "RelayState/message/text assembled from symbolic indices over alphabets containing every HTML/URL/XML-significant character and backslash sequences: a conforming HTML parser recovers exactly the two fields, a URL parser exactly the parameters (destination query untouched, signed octets = spec-ordered prefix), an XML parser an element-identical SOAP body, and the real decoders return the original bytes.",
+    "RelayState/message/text assembled from symbolic indices over alphabets containing every HTML/URL/XML-significant character and backslash sequences: a conforming HTML parser recovers exactly the two fields, a URL parser exactly the parameters (destination query untouched, signed octets = spec-ordered prefix), an XML parser an element-identical SOAP body, and the real decoders return the original bytes (incl. a Redirect message just over 64 KiB).",
     "Weaker than the other checks: strings are concrete per path (arbitrary symbolic strings do not close through these encoders), so z3 only enumerates the index space. Trusted: stdlib html.parser / urllib.parse / ElementTree as independent readers.",
     "DESIGN.md 3/C14")
 add("C15",
     _CH + " of RSACrypto.get_signer / RSASigner.sign / verify interleavings (symbolic schedules of three entities), of two entities signing through Entity.apply_binding, and of http_redirect_message + verify_redirect_signature under single-parameter mutations, with an ideal signature scheme",
-    "Every schedule of up to 4 (quick) / 5 (thorough) get_signer/sign steps by three entities with distinct keys, and two real client entities signing redirects in either order: each signature is made with the requesting entity's key and verifies under no other; a signed redirect verifies iff unmutated and under the signer's key, for 14 mutations x 5 algorithms x 5 RelayStates (incl. percent escapes) x request/response.",
+    "Every schedule of up to 4 (quick) / 5 (thorough) get_signer/sign steps by three entities with distinct keys, and two real client entities signing redirects in either order (each optionally having first verified a redirect received from the other): each signature is made with the requesting entity's key and verifies under no other; a signed redirect verifies iff unmutated and under the signer's key, for 17 mutations x 5 algorithms x 6 RelayStates (incl. percent escapes, '+' and blanks) x request/response.",
     "Trusted: CrossHair/z3; ideal signature scheme replacing the RSA primitives; call-granularity interleavings.",
     "DESIGN.md 3/C15")
 add("C16",
@@ -91,13 +91,13 @@ add("C17",
     "DESIGN.md 3/C17")
 add("C18",
     _CH + " of IdentDB operation histories (issue persistent/transient, withdraw, remove_local, manage-name-id, name-id-mapping over 2 users x 3 SPs) against a reference map, and of ident.code/decode over alphabet-indexed field contents",
-    "All 2-op histories and sampled 3-op histories (quick; all 3-op in thorough) over 24 operation codes: after every step each issued, unwithdrawn identifier resolves to exactly its user, withdrawn ones to nobody, find_nameid lists only real identifiers, persistent ids are stable per (user, SP) and distinct otherwise, transient ids fresh. "
+    "All 2-op histories and sampled 3-op histories (quick; half of the 3-op grid in thorough) over 26 operation codes (incl. withdrawal of a never-issued NameID carrying an issued text): after every step each issued, unwithdrawn identifier resolves to exactly its user, withdrawn ones to nobody, find_nameid lists only real identifiers, persistent ids are stable per (user, SP) and distinct otherwise, transient ids fresh. "
     "code/decode round-trips every field and code is injective for fields built from separators, percent signs, spaces, look-alike prefixes and non-ASCII text.",
     "Trusted: CrossHair/z3 (index enumeration; strings concrete per path); id generator stub that never repeats; in-memory dict database.",
     "DESIGN.md 3/C18")
 add("C19",
     _CH + " of Cache operation histories (set/reset/delete/mid-history read/clock tick, then a query battery: get_identity, get, active, entities, subjects) with symbolic expiry instants and clock, compared with a reference model",
-    "2-op, sampled 3-op and 4-op histories (quick; all 3-op and sampled 4-op in thorough) over 13 operation codes on three subjects (two differing in one NameID field, one lacking it) and two sources: every query result equals the reference model for every ordering of three symbolic expiries and two symbolic clock instants (ties included), with expiry checking on and off.",
+    "2-op, sampled 3-op and 4-op histories (quick; a quarter of the 3-op grid and sampled 4-op in thorough) over 13 operation codes on three subjects (two differing in one NameID field, one lacking it) and two sources: every query result equals the reference model for every ordering of three symbolic expiries and two symbolic clock instants (ties included), with expiry checking on and off.",
     "Trusted: CrossHair/z3; clock model; in-memory cache only (shelve-backed variant is I/O, outside); expiry 0 = reset marker excluded.",
     "DESIGN.md 3/C19")
 add("C20",
